@@ -1114,3 +1114,391 @@ Proof.
   - cbn [map vsum bind fst snd sd_total]. reflexivity.
   - intros x Hx. apply Hnf. rewrite <- (firstn_skipn st l1). apply in_or_app. right. exact Hx.
 Qed.
+
+(* ------------------------------------------- the layout of a balance line reads back *)
+
+Fixpoint read_tree_st (S : list path) (rows : list (nat * path)) : list path * list path :=
+  match rows with
+  | [] => ([], S)
+  | (lvl, pn) :: rows' =>
+      let (full, S') := read_line S lvl pn in
+      let (r, S'') := read_tree_st S' rows' in (full :: r, S'')
+  end.
+
+Lemma read_tree_st_fst : forall rows S, fst (read_tree_st S rows) = read_tree S rows.
+Proof.
+  induction rows as [|[lvl pn] rows IH]; intros S; cbn [read_tree_st read_tree]; [reflexivity|].
+  destruct (read_line S lvl pn) as [full S'] eqn:E. specialize (IH S').
+  destruct (read_tree_st S' rows) as [r S'']. cbn [fst] in *. rewrite IH. reflexivity.
+Qed.
+
+Lemma read_tree_st_app : forall r1 r2 S,
+  read_tree_st S (r1 ++ r2) =
+  (let (a, S1) := read_tree_st S r1 in let (b, S2) := read_tree_st S1 r2 in (a ++ b, S2)).
+Proof.
+  induction r1 as [|[lvl pn] r1 IH]; intros r2 S; cbn [app read_tree_st].
+  - destruct (read_tree_st S r2). reflexivity.
+  - destruct (read_line S lvl pn) as [full S']. rewrite IH.
+    destruct (read_tree_st S' r1) as [a S1]. destruct (read_tree_st S1 r2) as [b S2]. reflexivity.
+Qed.
+
+Definition prefix_ok (A S : list path) : Prop := firstn (length A) S = A.
+
+Lemma prefix_ok_app A B S : prefix_ok (A ++ B) S -> prefix_ok A S.
+Proof.
+  unfold prefix_ok. intros H.
+  assert (E : firstn (length A) S = firstn (length A) (firstn (length (A ++ B)) S)).
+  { rewrite firstn_firstn. f_equal. rewrite app_length. lia. }
+  rewrite E, H. rewrite firstn_app, Nat.sub_diag, firstn_all. cbn [firstn]. apply app_nil_r.
+Qed.
+
+Lemma prefix_ok_length A S : prefix_ok A S -> (length A <= length S)%nat.
+Proof. unfold prefix_ok. intros H. rewrite <- H at 1. rewrite firstn_length. lia. Qed.
+
+Lemma nth_of_firstn {A} (d : A) : forall l (S : list A), nth l S d = nth l (firstn (Datatypes.S l) S) d.
+Proof.
+  induction l as [|l IH]; intros [|x S]; try reflexivity.
+  change (firstn (Datatypes.S (Datatypes.S l)) (x :: S)) with (x :: firstn (Datatypes.S l) S).
+  cbn [nth]. apply IH.
+Qed.
+
+Lemma nth_is_last {A} (d : A) : forall (L : list A) l, length L = Datatypes.S l -> nth l L d = last L d.
+Proof.
+  induction L as [|x L IH]; intros l HL; [discriminate|].
+  destruct L as [|y L].
+  - destruct l; [reflexivity|discriminate].
+  - destruct l as [|l]; [discriminate|].
+    transitivity (nth l (y :: L) d); [reflexivity|].
+    rewrite (IH l) by (cbn in *; lia). reflexivity.
+Qed.
+
+Section Layout.
+  Variable cnt : path -> bool.
+  Variable shown : path -> bool.
+  Variable all : list path.
+
+  (* the displayed-level ancestors of a among its prefixes of length 1..n, outermost first *)
+  Fixpoint ancs (n : nat) (a : path) : list path :=
+    match n with
+    | O => []
+    | S k => ancs k a ++ (if cnt (firstn n a) then [firstn n a] else [])
+    end.
+
+  Definition ancsx (a : path) : list path := ancs (length a - 1) a.
+
+  Lemma up_spacer_ancs n a : up_spacer cnt n a = length (ancs n a).
+  Proof.
+    induction n as [|k IH]; [reflexivity|]. cbn [up_spacer ancs]. rewrite app_length, IH.
+    destruct (cnt (firstn (S k) a)); cbn [length]; lia.
+  Qed.
+
+  Lemma up_cut_last n a : firstn (up_cut cnt n a) a = last (ancs n a) [].
+  Proof.
+    induction n as [|k IH]; [reflexivity|]. cbn [up_cut ancs].
+    destruct (cnt (firstn (S k) a)).
+    - rewrite last_last. reflexivity.
+    - rewrite app_nil_r. exact IH.
+  Qed.
+
+  Lemma up_cut_zero n a : up_spacer cnt n a = O -> up_cut cnt n a = O.
+  Proof.
+    induction n as [|k IH]; [reflexivity|]. cbn [up_spacer up_cut].
+    destruct (cnt (firstn (S k) a)); [discriminate|]. cbn. exact IH.
+  Qed.
+
+  Definition info (a : path) : nat * path := (spacer_of cnt a, partial_of cnt a).
+
+  (* one line: from a stack that holds the displayed-level ancestors, the reader recovers the
+     full name and leaves the ancestors in place *)
+  Lemma read_line_ok a S :
+    prefix_ok (ancsx a) S ->
+    read_line S (spacer_of cnt a) (partial_of cnt a) = (a, firstn (length (ancsx a)) S ++ [a]).
+  Proof.
+    unfold prefix_ok, read_line, set_level, spacer_of, partial_of, ancsx. intros H.
+    set (n := (length a - 1)%nat) in *. rewrite up_spacer_ancs.
+    destruct (length (ancs n a)) as [|l] eqn:El.
+    - rewrite up_cut_zero by (rewrite up_spacer_ancs; exact El). reflexivity.
+    - assert (Hn : nth l S [] = last (ancs n a) []).
+      { rewrite nth_of_firstn, H. apply nth_is_last. exact El. }
+      rewrite Hn, <- up_cut_last, firstn_skipn. reflexivity.
+  Qed.
+End Layout.
+
+Section LayoutTree.
+  Variable cnt : path -> bool.
+  Variable shown : path -> bool.
+  Variable all : list path.
+  Hypothesis shown_root : shown [] = false.
+
+  (* the accounts of the tree below a (and a), in the order of the accounts walk *)
+  Fixpoint pre (fuel : nat) (a : path) : list path :=
+    a :: match fuel with
+         | O => []
+         | S f => flat_map (pre f) (children all a)
+         end.
+
+  Lemma ancs_same_prefix n a b :
+    (n <= length a)%nat -> firstn (length a) b = a -> ancs cnt n b = ancs cnt n a.
+  Proof.
+    intros Hn Hp. induction n as [|k IH]; [reflexivity|]. cbn [ancs].
+    rewrite IH by lia.
+    assert (E : firstn (S k) b = firstn (S k) a).
+    { transitivity (firstn (S k) (firstn (length a) b)); [|rewrite Hp; reflexivity].
+      rewrite firstn_firstn. f_equal. lia. }
+    rewrite E. reflexivity.
+  Qed.
+
+  Lemma ancsx_child x k :
+    In k (children all x) ->
+    ancsx cnt k = ancsx cnt x ++ (match x with [] => [] | _ => if cnt x then [x] else [] end).
+  Proof.
+    intros Hk. pose proof (children_length _ _ _ Hk) as Hl. pose proof (children_prefix _ _ _ Hk) as Hp.
+    unfold ancsx. rewrite Hl. replace (S (length x) - 1)%nat with (length x) by lia.
+    rewrite (ancs_same_prefix (length x) x k (le_n _) Hp).
+    destruct x as [|s x]; [cbn; reflexivity|].
+    cbn [length]. replace (S (length x) - 1)%nat with (length x) by lia.
+    cbn [ancs]. change (S (length x)) with (length (s :: x)). rewrite firstn_all. reflexivity.
+  Qed.
+
+  Definition rows_of_list (l : list path) : list (nat * path) := map (info cnt) (filter shown l).
+
+  Lemma read_subtree : forall fuel x S,
+    prefix_ok (ancsx cnt x) S ->
+    (forall y, In y (pre fuel x) -> y <> [] -> cnt y = true -> shown y = true) ->
+    exists S', read_tree_st S (rows_of_list (pre fuel x)) = (filter shown (pre fuel x), S') /\
+               prefix_ok (ancsx cnt x) S'.
+  Proof.
+    induction fuel as [|f IH]; intros x S HS Hc.
+    - cbn [pre]. unfold rows_of_list. cbn [filter]. destruct (shown x) eqn:Es; cbn [map read_tree_st].
+      + unfold info. rewrite (read_line_ok cnt x S HS). eexists. split; [reflexivity|].
+        unfold prefix_ok in *. rewrite firstn_app, firstn_firstn, Nat.min_id.
+        rewrite firstn_length_le by (apply prefix_ok_length; exact HS).
+        rewrite Nat.sub_diag. cbn [firstn]. rewrite app_nil_r. exact HS.
+      + eexists. split; [reflexivity|exact HS].
+    - cbn [pre]. unfold rows_of_list. cbn [filter].
+      (* the stack after the line of x itself, and what the children need *)
+      set (A' := ancsx cnt x ++ match x with [] => [] | _ => if cnt x then [x] else [] end).
+      assert (Hkids : forall ks S1, prefix_ok A' S1 ->
+                (forall k, In k ks -> In k (children all x)) ->
+                exists S', read_tree_st S1 (rows_of_list (flat_map (pre f) ks)) =
+                           (filter shown (flat_map (pre f) ks), S') /\ prefix_ok A' S').
+      { induction ks as [|k ks IHk]; intros S1 H1 Hin.
+        - exists S1. split; [reflexivity|exact H1].
+        - cbn [flat_map]. unfold rows_of_list. rewrite filter_app, map_app, read_tree_st_app.
+          assert (Hk : In k (children all x)) by (apply Hin; left; reflexivity).
+          destruct (IH k S1) as (S2 & E2 & H2).
+          + rewrite (ancsx_child x k Hk). exact H1.
+          + intros y Hy. apply Hc. right. apply in_flat_map. exists k. split; assumption.
+          + fold (rows_of_list (pre f k)). rewrite E2.
+            rewrite (ancsx_child x k Hk) in H2. fold A' in H2.
+            destruct (IHk S2 H2) as (S3 & E3 & H3); [intros k' Hk'; apply Hin; right; exact Hk'|].
+            fold (rows_of_list (flat_map (pre f) ks)). rewrite E3. exists S3. split; [reflexivity|exact H3]. }
+      destruct (shown x) eqn:Es.
+      + cbn [map read_tree_st]. unfold info at 1. rewrite (read_line_ok cnt x S HS).
+        set (S1 := firstn (length (ancsx cnt x)) S ++ [x]).
+        assert (H1 : prefix_ok A' S1).
+        { unfold A', S1, prefix_ok. unfold prefix_ok in HS. rewrite HS.
+          destruct x as [|s x]; [rewrite shown_root in Es; discriminate|].
+          destruct (cnt (s :: x)).
+          - rewrite firstn_all. reflexivity.
+          - rewrite app_nil_r, firstn_app, Nat.sub_diag, firstn_all. cbn [firstn]. apply app_nil_r. }
+        destruct (Hkids (children all x) S1 H1 (fun k H => H)) as (S' & E & H').
+        fold (rows_of_list (flat_map (pre f) (children all x))). rewrite E.
+        exists S'. split; [reflexivity|]. apply (prefix_ok_app _ _ _ H').
+      + assert (H1 : prefix_ok A' S).
+        { unfold A'. destruct x as [|s x]; [rewrite app_nil_r; exact HS|].
+          destruct (cnt (s :: x)) eqn:Ec; [|rewrite app_nil_r; exact HS].
+          rewrite (Hc (s :: x) (or_introl eq_refl)) in Es; [discriminate|discriminate|exact Ec]. }
+        destruct (Hkids (children all x) S H1 (fun k H => H)) as (S' & E & H').
+        fold (rows_of_list (flat_map (pre f) (children all x))). rewrite E.
+        exists S'. split; [reflexivity|]. apply (prefix_ok_app _ _ _ H').
+  Qed.
+
+  (* reading the whole report back gives the full name of every displayed line, in order *)
+  Lemma read_tree_pre fuel :
+    (forall y, In y (pre fuel []) -> y <> [] -> cnt y = true -> shown y = true) ->
+    read_tree [] (rows_of_list (pre fuel [])) = filter shown (pre fuel []).
+  Proof.
+    intros Hc. destruct (read_subtree fuel [] []) as (S' & E & _); [reflexivity|exact Hc|].
+    rewrite <- read_tree_st_fst, E. reflexivity.
+  Qed.
+End LayoutTree.
+
+(* ------------------------------------------- bal_layout reads back to the account names *)
+
+Lemma kids_marks_pre (F : path -> res marks) (G : path -> list path) : forall ks acc m,
+  kids_marks F ks acc = Ok m ->
+  (forall k m', In k ks -> F k = Ok m' -> map fst (m_pre m') = G k) ->
+  map fst (m_pre m) = map fst (m_pre acc) ++ flat_map G ks.
+Proof.
+  induction ks as [|k ks IH]; intros acc m; cbn [kids_marks flat_map].
+  - intros [= <-] _. rewrite app_nil_r. reflexivity.
+  - destruct (F k) as [mk|] eqn:E; cbn [bind]; [|discriminate].
+    intros H HG. rewrite (IH _ _ H) by (intros k' m' Hk'; apply HG; right; exact Hk').
+    cbn [m_pre]. rewrite map_app, (HG k mk (or_introl eq_refl) E), app_assoc. reflexivity.
+Qed.
+
+Lemma mark_pre ord cp o ps : forall fuel a m,
+  mark fuel ord cp o ps a = Ok m -> map fst (m_pre m) = pre (map p_acct ps) fuel a.
+Proof.
+  induction fuel as [|f IH]; intros a m; cbn [mark pre].
+  - cbn [bind]. destruct a as [|s a]; [intros [= <-]; reflexivity|].
+    destruct (visited o ps (s :: a) || _).
+    + destruct (total_of ord o ps (s :: a)); cbn [bind]; [|discriminate].
+      destruct (display_value ord o _); cbn [bind]; [|discriminate]. intros [= <-]. reflexivity.
+    + intros [= <-]. reflexivity.
+  - destruct (kids_marks (mark f ord cp o ps) (children (map p_acct ps) a) (mkMarks 0 0 [])) as [km|] eqn:Ek;
+      cbn [bind]; [|discriminate].
+    pose proof (kids_marks_pre _ (pre (map p_acct ps) f) _ _ _ Ek
+                  (fun k m' _ H => IH k m' H)) as Hk. cbn [m_pre map app] in Hk.
+    destruct a as [|s a]; [intros [= <-]; cbn [m_pre map fst]; rewrite Hk; reflexivity|].
+    destruct (visited o ps (s :: a) || _).
+    + destruct (total_of ord o ps (s :: a)); cbn [bind]; [|discriminate].
+      destruct (display_value ord o _); cbn [bind]; [|discriminate]. intros [= <-].
+      cbn [m_pre map fst]. rewrite Hk. reflexivity.
+    + intros [= <-]. cbn [m_pre map fst]. rewrite Hk. reflexivity.
+Qed.
+
+Lemma pre_prefix all : forall fuel a y, In y (pre all fuel a) -> firstn (length a) y = a.
+Proof.
+  induction fuel as [|f IH]; intros a y; cbn [pre].
+  - intros [<-|[]]. apply firstn_all.
+  - intros [<-|H]; [apply firstn_all|]. apply in_flat_map in H as (k & Hk & Hy).
+    pose proof (IH k y Hy) as Hp. pose proof (children_length _ _ _ Hk) as Hl.
+    pose proof (children_prefix _ _ _ Hk) as Hpk.
+    transitivity (firstn (length a) (firstn (length k) y)); [rewrite firstn_firstn; f_equal; lia|].
+    rewrite Hp. exact Hpk.
+Qed.
+
+Lemma nodup_app_disjoint {A} (l1 l2 : list A) :
+  NoDup l1 -> NoDup l2 -> (forall x, In x l1 -> In x l2 -> False) -> NoDup (l1 ++ l2).
+Proof.
+  induction l1 as [|x l1 IH]; intros H1 H2 Hd; cbn [app]; [exact H2|].
+  inversion H1 as [|? ? Hx H1']; subst. constructor.
+  - intros H. apply in_app_or in H as [H|H]; [contradiction|]. apply (Hd x); [left; reflexivity|exact H].
+  - apply IH; [exact H1'|exact H2|]. intros y Hy1 Hy2. apply (Hd y); [right; exact Hy1|exact Hy2].
+Qed.
+
+Lemma pre_nodup all : forall fuel a, NoDup (pre all fuel a).
+Proof.
+  induction fuel as [|f IH]; intros a; cbn [pre]; [constructor; [intros []|constructor]|].
+  constructor.
+  - intros H. apply in_flat_map in H as (k & Hk & Hy).
+    pose proof (pre_prefix all f k a Hy) as Hp. pose proof (children_length _ _ _ Hk) as Hl.
+    apply (f_equal (@length _)) in Hp. rewrite firstn_length in Hp. lia.
+  - pose proof (children_nodup all a) as Hnd.
+    assert (Hin : forall k, In k (children all a) -> In k (children all a)) by auto.
+    revert Hnd Hin. generalize (children all a) at 1 2 4. intros ks.
+    induction ks as [|k ks IHk]; intros Hnd Hin; cbn [flat_map]; [constructor|].
+    inversion Hnd as [|? ? Hk Hnd']; subst.
+    apply nodup_app_disjoint.
+    + apply IH.
+    + apply IHk; [exact Hnd'|intros k' Hk'; apply Hin; right; exact Hk'].
+    + intros y Hy1 Hy2. apply in_flat_map in Hy2 as (k2 & Hk2 & Hy2).
+      pose proof (pre_prefix all f k y Hy1) as P1. pose proof (pre_prefix all f k2 y Hy2) as P2.
+      pose proof (children_length _ _ _ (Hin k (or_introl eq_refl))) as L1.
+      pose proof (children_length _ _ _ (Hin k2 (or_intror Hk2))) as L2.
+      rewrite L1 in P1. rewrite L2 in P2. apply Hk. congruence.
+Qed.
+
+Lemma flag_of_unique : forall (m : list (path * bool)) a f,
+  NoDup (map fst m) -> In (a, f) m -> flag_of m a = f.
+Proof.
+  unfold flag_of. induction m as [|[b g] m IH]; intros a f Hnd Hin; [destruct Hin|].
+  cbn [map fst] in Hnd. inversion Hnd as [|? ? Hb Hnd']; subst. cbn [existsb fst snd].
+  destruct Hin as [E|Hin].
+  - injection E as -> ->. rewrite (proj2 (path_eqb_eq a a) eq_refl), andb_true_r.
+    destruct f; [reflexivity|]. cbn [orb].
+    destruct (existsb (fun ab => snd ab && path_eqb (fst ab) a) m) eqn:Ex; [|reflexivity].
+    apply existsb_exists in Ex as ([c h] & Hc & Hh). cbn [fst snd] in Hh.
+    apply andb_true_iff in Hh as [_ Hh]. apply path_eqb_eq in Hh. subst c.
+    exfalso. apply Hb. apply in_map_iff. exists (a, h). split; [reflexivity|exact Hc].
+  - assert (Hne : path_eqb b a = false).
+    { destruct (path_eqb b a) eqn:E; [|reflexivity]. apply path_eqb_eq in E. subst b.
+      exfalso. apply Hb. apply in_map_iff. exists (a, f). split; [reflexivity|exact Hin]. }
+    rewrite Hne, andb_false_r. cbn [orb]. apply IH; assumption.
+Qed.
+
+Lemma map_filter_fst (Q : path * bool -> bool) (Q' : path -> bool) : forall m : list (path * bool),
+  (forall ab, In ab m -> Q ab = Q' (fst ab)) -> map fst (filter Q m) = filter Q' (map fst m).
+Proof.
+  induction m as [|ab m IH]; intros H; cbn [filter map]; [reflexivity|].
+  rewrite <- (H ab (or_introl eq_refl)). destruct (Q ab); cbn [map]; rewrite IH; try reflexivity;
+    intros x Hx; apply H; right; exact Hx.
+Qed.
+
+Lemma mark_root_pre ord cp o ps fuel m :
+  mark fuel ord cp o ps [] = Ok m -> exists km, m_pre m = ([], false) :: km.
+Proof.
+  destruct fuel as [|f]; cbn [mark].
+  - cbn [bind]. intros [= <-]. eexists; reflexivity.
+  - destruct (kids_marks _ _ _) as [km|]; cbn [bind]; [|discriminate]. intros [= <-]. eexists; reflexivity.
+Qed.
+
+(* a tree-form balance report whose displayed levels are all printed (layout_ok) reads back,
+   line by line, to the full account names *)
+Lemma layout_reads_back_gen ord cp o ps rows :
+  o_flat o = false ->
+  layout_ok ord cp o ps = Ok true ->
+  bal_layout ord cp o ps = Ok rows ->
+  read_tree [] (map (fun l => (l_spacer l, l_partial l)) rows) = map l_acct rows.
+Proof.
+  unfold layout_ok, bal_layout. intros Hflat.
+  destruct (mark (max_depth ps) ord cp o ps []) as [m|] eqn:Em; cbn [bind]; [|discriminate].
+  intros [= Hok] [= <-]. rewrite Hflat.
+  set (all := map p_acct ps) in *. set (cnt := counted (m_pre m) all) in *.
+  set (shown := fun a => flag_of (m_pre m) a && disp_pred o a).
+  pose proof (mark_pre _ _ _ _ _ _ _ Em) as Hpre. fold all in Hpre.
+  assert (Hnd : NoDup (map fst (m_pre m))) by (rewrite Hpre; apply pre_nodup).
+  assert (HR : map fst (filter (fun ab => snd ab && disp_pred o (fst ab)) (m_pre m)) =
+               filter shown (pre all (max_depth ps) [])).
+  { rewrite <- Hpre. apply map_filter_fst. intros [a f] Hin. unfold shown. cbn [fst snd].
+    rewrite (flag_of_unique _ _ _ Hnd Hin). reflexivity. }
+  cbv iota. rewrite !map_map. cbn [l_spacer l_partial l_acct].
+  transitivity (read_tree [] (map (info cnt) (map fst (filter (fun ab => snd ab && disp_pred o (fst ab)) (m_pre m)))));
+    [rewrite map_map; reflexivity|].
+  change (map (fun x : path * bool => fst x)) with (map (@fst path bool)).
+  rewrite HR. apply (read_tree_pre cnt shown all).
+  - unfold shown. destruct (mark_root_pre _ _ _ _ _ _ Em) as [km Hm].
+    rewrite (flag_of_unique (m_pre m) [] false Hnd); [reflexivity|]. rewrite Hm. left. reflexivity.
+  - intros y Hy Hne Hc. rewrite <- Hpre in Hy. apply in_map_iff in Hy as ([a f] & <- & Hin).
+    rewrite forallb_forall in Hok. specialize (Hok _ Hin). cbn [fst] in *.
+    destruct a as [|s a]; [contradiction Hne; reflexivity|].
+    fold cnt in Hok. rewrite Hc in Hok. exact Hok.
+Qed.
+
+Lemma read_tree_flat : forall (l : list path) S, read_tree S (map (fun a => (O, a)) l) = l.
+Proof.
+  induction l as [|a l IH]; intros S; cbn [map read_tree read_line]; [reflexivity|].
+  rewrite IH. reflexivity.
+Qed.
+
+Lemma layout_flat_reads_back_gen ord cp o ps rows :
+  o_flat o = true ->
+  bal_layout ord cp o ps = Ok rows ->
+  read_tree [] (map (fun l => (l_spacer l, l_partial l)) rows) = map l_acct rows.
+Proof.
+  unfold bal_layout. intros Hflat.
+  destruct (mark (max_depth ps) ord cp o ps []) as [m|]; cbn [bind]; [|discriminate].
+  intros [= <-]. rewrite Hflat. cbv iota. rewrite !map_map. cbn [l_spacer l_partial l_acct].
+  set (F := filter _ (m_pre m)).
+  transitivity (read_tree [] (map (fun a => (O, a)) (map fst F))); [rewrite map_map; reflexivity|].
+  rewrite read_tree_flat. reflexivity.
+Qed.
+
+(* the lines of bal_layout are the rows of bal_rows *)
+Lemma bal_layout_accounts ord cp o ps rows lrows :
+  bal_rows ord cp o ps = Ok rows -> bal_layout ord cp o ps = Ok lrows ->
+  map l_acct lrows = map b_acct rows.
+Proof.
+  unfold bal_rows, bal_layout.
+  destruct (mark (max_depth ps) ord cp o ps []) as [m|]; cbn [bind]; [|discriminate].
+  intros H [= <-]. rewrite map_map.
+  set (L := map fst (filter (fun ab => snd ab && disp_pred o (fst ab)) (m_pre m))) in *.
+  clearbody L. revert rows H. induction L as [|a L IH]; intros rows; cbn [map_res' map].
+  - intros [= <-]. reflexivity.
+  - destruct (brow_of ord o ps a) as [b|] eqn:Eb; cbn [bind]; [|discriminate].
+    destruct (map_res' (brow_of ord o ps) L) as [bs|] eqn:El; cbn [bind]; [|discriminate].
+    intros [= <-]. cbn [map]. rewrite (brow_of_acct _ _ _ _ _ Eb), (IH bs eq_refl).
+    destruct (o_flat o); reflexivity.
+Qed.
